@@ -3,6 +3,7 @@ package rules
 import (
 	"fmt"
 	"go/token"
+	"sort"
 
 	"golang.org/x/tools/go/ssa"
 
@@ -16,8 +17,8 @@ func init() {
 		Technique: "who-may-write census of stream.parent, guard (control-dependence) and dominance/path queries on go/ssa of adjustStreamPriority, loop-header census",
 		Meta: core.Meta{
 			Level:       "other",
-			Explanation: "Decides the structural clauses that keep re-parenting acyclic in bfe_http2.adjustStreamPriority: (1) stream.parent is written only in adjustStreamPriority and only in three reviewed forms (re-parent st, move the new parent out of st's subtree, exclusive adoption of siblings); (2) `st.parent = parent` is reachable only when parent != st was established (self-dependency ignored); (3) it is dominated by the ancestor walk: a cursor that starts at the new parent, advances by .parent, stops at nil and is compared with st, and when st is found the new parent is first moved to st's previous parent (`parent.parent = st.parent`) on every path before st is re-parented; (4) the exclusive loop assigns `x.parent = st` only for x != st whose parent equals st's new parent, only under priority.Exclusive and only after st was re-parented; (5) every loop of the function is either a range over the stream map or the nil-terminated parent walk (termination given acyclicity); (6) both callers pass the connection's stream map and processHeaders registers the new stream before prioritising it. Not covered: acyclicity as a graph invariant over arbitrary histories (it follows from these clauses by induction, which the checker does not perform); weights; dependency on streams that were already removed from the map.",
-			RuleText:    "obligations = each store to stream.parent (census + form), the self-dependency guard, the clauses of the ancestor walk, the guards of the exclusive adoption, each loop header of adjustStreamPriority, each caller",
+			Explanation: "Decides the structural clauses that keep re-parenting acyclic in bfe_http2.adjustStreamPriority: (1) stream.parent is written only in adjustStreamPriority and only in three reviewed forms (re-parent st, move the new parent out of st's subtree, exclusive adoption of siblings); (2) `st.parent = parent` is reachable only when parent != st was established (self-dependency ignored); (3) it is dominated by the ancestor walk: a cursor that starts at the new parent, advances by .parent, stops at nil and is compared with st, every edge leaving the walk loop is either cursor == nil or cursor == st (no depth/work cap or other early exit can leave ancestors unexamined), and when st is found the new parent is first moved to st's previous parent (`parent.parent = st.parent`) on every path before st is re-parented; (4) the exclusive loop assigns `x.parent = st` only for x != st whose parent equals st's new parent, only under priority.Exclusive and only after st was re-parented; (5) every loop of the function is either a range over the stream map or the nil-terminated parent walk (termination given acyclicity); (6) both callers pass the connection's stream map and processHeaders registers the new stream before prioritising it. Not covered: acyclicity as a graph invariant over arbitrary histories (it follows from these clauses by induction, which the checker does not perform); weights; dependency on streams that were already removed from the map.",
+			RuleText:    "obligations = each store to stream.parent (census + form), the self-dependency guard, the clauses of the ancestor walk, each exit edge of the walk loop, the guards of the exclusive adoption, each loop header of adjustStreamPriority, each caller",
 		},
 		Run: runC36,
 		Mutants: []Mutant{
@@ -31,6 +32,9 @@ func init() {
 			{Name: "parent-written-elsewhere", File: "bfe_http2/server.go", Old: "		st.gotReset = true\n", New: "		st.gotReset = true\n		st.parent = st\n", Expect: "parent-writers"},
 			{Name: "walk-does-not-advance", File: "bfe_http2/server.go", Old: "piter != nil; piter = piter.parent {", New: "piter != nil; piter = piter {", Expect: "ancestor-walk"},
 			{Name: "prioritised-before-registered", File: "bfe_http2/server.go", Old: "	sc.streams[id] = st\n	if f.HasPriority() {\n		adjustStreamPriority(sc.streams, st.id, f.Priority)\n	}\n", New: "	if f.HasPriority() {\n		adjustStreamPriority(sc.streams, st.id, f.Priority)\n	}\n	sc.streams[id] = st\n", Expect: "prio-callers"},
+			{Name: "walk-work-capped", File: "bfe_http2/server.go", Old: "	for piter := parent; piter != nil; piter = piter.parent {\n		if piter == st {\n", New: "	steps := 0\n	for piter := parent; piter != nil; piter = piter.parent {\n		if steps++; steps > 100 {\n			break\n		}\n		if piter == st {\n", Expect: "walk-complete"},
+			{Name: "walk-stops-at-older-stream", File: "bfe_http2/server.go", Old: "		if piter == st {\n			parent.parent = st.parent\n", New: "		if piter.id < st.id {\n			break\n		}\n		if piter == st {\n			parent.parent = st.parent\n", Expect: "walk-complete"},
+			{Name: "silent-walk-break-at-root", File: "bfe_http2/server.go", Old: "	for piter := parent; piter != nil; piter = piter.parent {\n		if piter == st {\n", New: "	for piter := parent; ; piter = piter.parent {\n		if piter == nil {\n			break\n		}\n		if piter == st {\n", Silent: true},
 			{Name: "silent-rename-cursor", File: "bfe_http2/server.go", Old: "	for piter := parent; piter != nil; piter = piter.parent {\n		if piter == st {\n", New: "	for anc := parent; anc != nil; anc = anc.parent {\n		if anc == st {\n", Silent: true},
 			{Name: "silent-switch-form", File: "bfe_http2/server.go", Old: "	if parent == st {\n		// if client tries to set this stream to be the parent of itself\n		// ignore and keep going\n		return\n	}\n", New: "	switch {\n	case parent == st:\n		return\n	}\n", Silent: true},
 		},
@@ -162,6 +166,7 @@ func runC36(c *core.Ctx) {
 		}
 		c.Check("ancestor-walk", key("compares-with-st"), hdr.Instrs[0].Pos(), found != nil,
 			"inside the walk the cursor is never compared with the re-prioritised stream st")
+		c36WalkComplete(c, fn, hdr, cursor, st, key)
 		if found != nil {
 			hit := found.Block().Succs[0]
 			isMove := func(in ssa.Instruction) bool { return sMove != nil && in == ssa.Instruction(sMove) }
@@ -185,6 +190,7 @@ func runC36(c *core.Ctx) {
 		}
 	}
 	c.Min("ancestor-walk", 7)
+	c.Min("walk-complete", 2)
 
 	// (4) exclusive adoption
 	for i, s := range sExcl {
@@ -258,4 +264,49 @@ func h2bIsRangeElem(v ssa.Value) bool {
 	}
 	_, ok = ex.Tuple.(*ssa.Next)
 	return ok
+}
+
+// c36WalkComplete: the ancestor walk may stop only at the root (cursor == nil)
+// or at st itself. Any other way out of the loop (a depth/work cap, an id
+// comparison, a "seen enough" flag) leaves part of the ancestor chain
+// unexamined: a descendant of st beyond the cut-off is not recognised and
+// `st.parent = parent` closes a cycle. One obligation per edge leaving the
+// natural loop of the cursor.
+func c36WalkComplete(c *core.Ctx, fn *ssa.Function, hdr *ssa.BasicBlock, cursor *ssa.Phi, st ssa.Value, key func(string) string) {
+	nExit := 0
+	for _, l := range core.Loops(fn) {
+		if l.Header != hdr {
+			continue
+		}
+		var blocks []*ssa.BasicBlock
+		for b := range l.Body {
+			blocks = append(blocks, b)
+		}
+		sort.Slice(blocks, func(i, j int) bool { return blocks[i].Index < blocks[j].Index })
+		for _, b := range blocks {
+			for si, s := range b.Succs {
+				if l.Body[s] {
+					continue
+				}
+				nExit++
+				why, ok := "an unconditional jump", false
+				if ifi := h2bIfOf(b); ifi != nil && b.Succs[0] != b.Succs[1] {
+					why = core.Render(ifi.Cond)
+					if si == 1 {
+						why = "!" + why
+					}
+					for _, r := range h2bExpand(ifi.Cond, si == 0, 0) {
+						if r.Cmp(token.EQL, h2bIs(cursor), h2bNilV) || r.Cmp(token.EQL, h2bIs(cursor), h2bIs(st)) {
+							ok = true
+						}
+					}
+				}
+				c.Check("walk-complete", key(fmt.Sprintf("walk-exit#%d", nExit)), h2bPos(b.Instrs[len(b.Instrs)-1]), ok,
+					"the ancestor walk can stop on "+why+", i.e. before it reached the root (cursor == nil) or found st: a descendant of st beyond that point is not detected and re-parenting st under it creates a cycle (RFC 7540 5.3.3)")
+			}
+		}
+	}
+	if nExit == 0 {
+		c.Check("walk-complete", key("walk-exit#0"), hdr.Instrs[0].Pos(), false, "the ancestor walk has no exit edge that the checker can classify")
+	}
 }
